@@ -856,6 +856,48 @@ func (w *world) runRep() {
 			dispose()
 		}
 	})
+	// expired blacklist entries + simultaneous HLS requests (see Case.BlBurst)
+	burstDone := make(chan struct{})
+	if w.c.BlBurst > 0 && w.rep == 0 && w.hlsAddr != "" {
+		bsl := w.wd.newSlot()
+		go protect("blacklist burst", func() {
+			defer close(burstDone)
+			for i := 0; i < w.c.BlBurst; i++ {
+				ip := fmt.Sprintf("10.%d.%d.%d", 20+i/60000, i/250%250, 1+i%250)
+				w.call(bsl, "CtrlAddIpBlacklist (burst)", func() {
+					_ = s.SM.CtrlAddIpBlacklist(base.ApiCtrlAddIpBlacklistReq{Ip: ip, DurationSec: i % 2})
+				})
+			}
+			time.Sleep(2100 * time.Millisecond) // IpBlacklist compares unix seconds: entry + 1 s < now holds for all of them
+			var bw sync.WaitGroup
+			for g := 0; g < 6; g++ {
+				bw.Add(1)
+				gsl := w.wd.newSlot()
+				go protect("blacklist burst request", func() {
+					defer bw.Done()
+					for j := 0; j < 4; j++ {
+						gsl.guard("hls http get (burst)", func() {
+							cl := &http.Client{Timeout: lalclient.DeliverTimeout, Transport: &http.Transport{DisableKeepAlives: true},
+								CheckRedirect: func(*http.Request, []*http.Request) error { return http.ErrUseLastResponse }}
+							if resp, err := cl.Get(fmt.Sprintf("http://%s/hls/c20s0.m3u8", w.hlsAddr)); err == nil {
+								_, _ = io.Copy(io.Discard, resp.Body)
+								_ = resp.Body.Close()
+							}
+						})
+						if j == 0 {
+							// a second wave of entries expires a second later
+							ip := fmt.Sprintf("10.99.%d.%d", g, j+1)
+							w.call(gsl, "CtrlAddIpBlacklist (burst)", func() { _ = s.SM.CtrlAddIpBlacklist(base.ApiCtrlAddIpBlacklistReq{Ip: ip, DurationSec: 0}) })
+						}
+					}
+				})
+			}
+			bw.Wait()
+			count("blacklist-expiry-bursts", 1)
+		})
+	} else {
+		close(burstDone)
+	}
 	for wi, ops := range w.c.Workers {
 		k := &worker{w: w, idx: wi, ops: ops, sl: w.wd.newSlot()}
 		wg.Add(1)
@@ -865,6 +907,7 @@ func (w *world) runRep() {
 		})
 	}
 	wg.Wait()
+	<-burstDone
 	w.stop.Store(true)
 	w.trigOnce.Do(func() { close(w.disposeTrigger) })
 	<-disposeDone
